@@ -1394,7 +1394,7 @@ func runC07(c *Ctx) {
 					kindName(cs)+" in "+c.FuncKey(fn))
 			}
 		}
-		r.Floor("R2", "library-internal calls of the teardown", nTd, 2)
+		r.Floor("R2", "library-internal calls of the teardown", nTd, 1)
 	}
 
 	// ---- R3
